@@ -185,6 +185,30 @@ pub fn block_alt_profile() -> Profile {
     p
 }
 
+/// block-alternate on constructs whose interior carries instrumentation of every mode (and the
+/// other way round): everything inside the replaced construct goes away with it
+pub fn region_profile() -> Profile {
+    let mut p = Profile::base("region-interior");
+    p.min_local_funcs = 1;
+    p.ops = w(&[("inject", 10), ("build_func", 1)]);
+    p.modes = vec![
+        Mode::BlockAlt,
+        Mode::EmptyBlockAlt,
+        Mode::BlockAlt,
+        Mode::Before,
+        Mode::After,
+        Mode::Alternate,
+        Mode::SemanticAfter,
+        Mode::BlockEntry,
+        Mode::BlockExit,
+        Mode::BlockEntry,
+        Mode::BlockExit,
+    ];
+    p.region_interior = true;
+    p.mean_ops = 5;
+    p
+}
+
 pub fn special_profile() -> Profile {
     let mut p = Profile::base("special-modes");
     p.min_local_funcs = 1;
@@ -378,7 +402,7 @@ pub fn check_def(id: &str) -> Option<CheckDef> {
         },
         "C05" => CheckDef {
             reencode_tail: true,
-            ..d("C05", vec![mixed_profile(), func_edit_profile(), global_edit_profile(), memory_edit_profile(), special_profile()])
+            ..d("C05", vec![mixed_profile(), func_edit_profile(), global_edit_profile(), memory_edit_profile(), special_profile(), region_profile()])
         },
         "C06" => d("C06", vec![func_edit_profile()]),
         "C07" => d("C07", vec![global_edit_profile()]),
@@ -395,8 +419,8 @@ pub fn check_def(id: &str) -> Option<CheckDef> {
         },
         "C14" => d("C14", vec![locals_profile()]),
         "C15" => d("C15", vec![simple_modes_profile()]),
-        "C21" => d("C21", vec![block_alt_profile()]),
-        "C22" => d("C22", vec![special_profile()]),
+        "C21" => d("C21", vec![block_alt_profile(), region_profile()]),
+        "C22" => d("C22", vec![special_profile(), special_profile(), region_profile()]),
         "C16" | "C17" | "C18" | "C19" | "C20" => CheckDef {
             quick_runs: 60_000,
             thorough_runs: 2_000_000,
@@ -463,7 +487,10 @@ fn owns(id: &str, m: &Mismatch) -> bool {
         "C14" => {
             k == "local_decl" || (k == "returned_id" && s == "add_local") || (k == "unexpected_panic" && s.starts_with("op:add_local"))
         }
-        "C15" | "C21" => k == "body_sequence" || (k == "unexpected_panic" && (s.starts_with("op:inject") || s.starts_with("encode"))) || k == "invalid_output",
+        "C18" => k == "removed_region_probe" && s == "block_entry",
+        "C19" => k == "removed_region_probe" && s == "block_exit",
+        "C20" => k == "removed_region_probe" && s == "semantic_after",
+        "C15" | "C21" => k == "body_sequence" || (k == "removed_region_probe" && id == "C21") || (k == "unexpected_panic" && (s.starts_with("op:inject") || s.starts_with("encode"))) || k == "invalid_output",
         "C22" => matches!(k, "probe_missing" | "bug_log_line"),
         "C28" => k == "custom_section" || (k == "unexpected_panic" && s.starts_with("op:custom")),
         "C29" => matches!(k, "name_migrated" | "name_lost"),
@@ -716,6 +743,11 @@ pub fn xproc_outcomes(sc: &Scenario, n: u32) -> Result<Vec<String>, String> {
 
 pub fn judge(id: &str, sc: &Scenario, hash_seeds: usize) -> (Judged, RunResult, Scenario) {
     match id {
+        "C18" | "C19" | "C20" if sc.exec.is_none() => {
+            // the structural share of these checks: probes inside a replaced construct (see gen_for)
+            let r = run(sc);
+            (judge_structural(id, sc, &r), r, sc.clone())
+        }
         "C16" | "C17" | "C18" | "C19" | "C20" => {
             let mut st = crate::execcheck::ExecStats::default();
             let (j, r) = crate::execcheck::judge_exec(id, sc, &mut st);
